@@ -976,6 +976,26 @@ pub fn compiled_batch(seed: u64, n_hist: usize, n_fam: usize) -> Batch {
         let n = tuple_histories.len();
         tuple_histories.push(versions.iter().enumerate().map(|(v, rec)| variant_holder(&format!("S{n}V{v}"), rec, if rec.fields.is_empty() { Shape::Unit } else { Shape::Struct })).collect());
     }
+    // a tuple-variant history with a transient positional field in front: the names the steps use are declared
+    // positions (field2, field3), whatever is transient before them
+    {
+        let tr = Field { name: "field1".into(), ty: Ty::U8, transient: Some(Val::Int(0)), opt_spelling: 0 };
+        let v0 = Record { fields: vec![f("field0", Ty::I32), tr.clone(), f("field2", Ty::Str)], steps: vec![] };
+        let s1 = Step::Added { name: "field3".into(), default: Val::Int(7) };
+        let v1 = Record { fields: vec![f("field0", Ty::I32), tr.clone(), f("field2", Ty::Str), f("field3", Ty::I64)], steps: vec![s1.clone()] };
+        let s2 = Step::MadeOptional { name: "field2".into() };
+        let v2 = Record {
+            fields: vec![f("field0", Ty::I32), tr.clone(), Field { name: "field2".into(), ty: Ty::Option(a(Ty::Str)), transient: None, opt_spelling: 0 }, f("field3", Ty::I64)],
+            steps: vec![s1.clone(), s2.clone()],
+        };
+        let s3 = Step::Added { name: "field4".into(), default: Val::None };
+        let v3 = Record {
+            fields: vec![f("field0", Ty::I32), tr, Field { name: "field2".into(), ty: Ty::Option(a(Ty::Str)), transient: None, opt_spelling: 0 }, f("field3", Ty::I64), Field { name: "field4".into(), ty: Ty::Option(a(Ty::U16)), transient: None, opt_spelling: 0 }],
+            steps: vec![s1, s2, s3],
+        };
+        let n = tuple_histories.len();
+        tuple_histories.push([v0, v1, v2, v3].iter().enumerate().map(|(v, rec)| tuple_holder(&format!("T{n}V{v}"), rec)).collect());
+    }
     Batch { histories, dedup_histories, families, tuple_histories, specials }
 }
 
